@@ -279,7 +279,7 @@ func (w *c03World) mutate(t *c03Target, seed []byte, family string, r *core.Rand
 	case "bitflip":
 		n := 300
 		if thorough {
-			n = 3000
+			n = 12000
 		}
 		for i := 0; i < n && len(seed) > 0; i++ {
 			b := append([]byte{}, seed...)
@@ -298,7 +298,7 @@ func (w *c03World) mutate(t *c03Target, seed []byte, family string, r *core.Rand
 	case "random":
 		n := 400
 		if thorough {
-			n = 8000
+			n = 30000
 		}
 		for i := 0; i < n; i++ {
 			l := r.IntN(r.Of(8, 80, 600))
